@@ -264,7 +264,9 @@ def run_check(pid, tier, replay_path=None):
     if getattr(mod, "USES_GENERATED", False):
         import translate
         pre_problems += translate.regenerate(log)
-    ok, out = lake_build()
+    # properties whose theorems do not depend on the regenerated data build only the model, the static
+    # proofs and the driver, so that a broken C14 obligation cannot take the other 18 checks down with it
+    ok, out = lake_build(None if getattr(mod, "USES_GENERATED", False) else ["Blackbird", "Proofs", "bbmodel"])
     build_broken = not ok
     if build_broken and not getattr(mod, "USES_GENERATED", False):
         print(out[-3000:])
